@@ -1,0 +1,52 @@
+//! Verification hooks (cargo feature `verif`, off by default).
+//!
+//! Thin wrappers with plain-data signatures around private kernels of the SQL back end, so that an
+//! external harness can compare them with a formal model on arbitrary inputs. Nothing here is used
+//! by the compiler itself.
+
+use super::gen_expr;
+use super::keywords;
+use super::pq::context::AnchorContext;
+use super::{Context, Dialect};
+use prqlc_parser::generic::Range;
+use crate::ir::rq;
+use crate::pr::Literal;
+
+fn int_expr(i: i64) -> rq::Expr {
+    rq::Expr {
+        kind: rq::ExprKind::Literal(Literal::Integer(i)),
+        span: None,
+    }
+}
+
+/// `range_of_ranges` on integer ranges.
+pub fn range_of_ranges(ranges: Vec<(Option<i64>, Option<i64>)>) -> Result<(Option<i64>, Option<i64>), String> {
+    let ranges = ranges
+        .into_iter()
+        .map(|(s, e)| Range {
+            start: s.map(int_expr),
+            end: e.map(int_expr),
+        })
+        .collect();
+    gen_expr::range_of_ranges(ranges)
+        .map(|r| (r.start, r.end))
+        .map_err(|e| format!("{e:?}"))
+}
+
+/// `translate_ident_part`: returns (value, quote char if quoted).
+pub fn translate_ident_part(ident: String, dialect: Dialect) -> (String, Option<char>) {
+    let ctx = Context::new(dialect, AnchorContext::default());
+    let id = gen_expr::translate_ident_part(ident, &ctx);
+    (id.value, id.quote_style)
+}
+
+/// `keywords::is_keyword`
+pub fn is_keyword(ident: &str, dialect: Dialect) -> bool {
+    keywords::is_keyword(ident, &dialect)
+}
+
+/// `deduplicate_select_items` on a list of items given as
+/// `("compound", idents)`, `("alias", [alias])` or `("other", [])`; returns the indices retained.
+pub fn deduplicate_select_items(items: Vec<(String, Vec<String>)>) -> Vec<usize> {
+    super::gen_projection::verif_dedup(items)
+}
